@@ -85,7 +85,9 @@ def strategy(draw):
     for _ in range(draw(st.integers(0, 5))):
         o = draw(gen.choice(["range", "fdwr", "manual", "range"]))
         if o == "range":
-            ops.append(dict(op="range", lo=draw(st.one_of(st.none(), gen.floats(0.05, 3.0))), hi=draw(st.one_of(st.none(), gen.floats(3.0, 60.0))),
+            # rarely "no limit" written as a number (inf, 1e20, 0): must come back as written
+            ops.append(dict(op="range", lo=draw(st.one_of(st.none(), gen.floats(0.05, 3.0), gen.floats(0.05, 3.0), st.sampled_from([0.0, -float("inf"), 1e-300]))),
+                            hi=draw(st.one_of(st.none(), gen.floats(3.0, 60.0), gen.floats(3.0, 60.0), st.sampled_from([float("inf"), 1e20, 1e300]))),
                             as_list=draw(st.booleans()),
                             kw=draw(st.sampled_from([None, None, {}, {"prominence": 0.5}, {"prominence": 2.0}, {"distance": 4}, {"height": 2.5}])),
                             shared=draw(st.booleans()), same_range=draw(gen.chance(3))))
